@@ -27,7 +27,9 @@ THEOREMS = ["Kdf.Props.C15." + t for t in (
     "ledger_sound", "ledger_prefix", "runs_frame",
     "fcacheGet_balanced", "fcachePread_balanced", "fcacheGetChunk_balanced", "fcachePutChunk_balanced",
     "chunk_roundtrip", "diskdumpReadPage_balanced", "cacheGetPage_balanced", "diskdumpGetPage_balanced", "readLocked_balanced",
-    "addrxlatGetPage_balanced", "addrxlatPage_roundtrip", "session_balanced")]
+    "addrxlatGetPage_balanced", "addrxlatPage_roundtrip", "session_balanced",
+    "fcacheGetFb_balanced", "fcacheGetFb_roundtrip", "xenMapScan_balanced", "getCacheBuf_balanced", "cleanupCache_balanced",
+    "ctxAddCb_balanced", "ctxDelCb_balanced", "axSession_balanced", "axSession_delcb_last", "xenMapScan_balanced_fresh")]
 
 WRAP = ("-Wl,--wrap=malloc,--wrap=calloc,--wrap=realloc,--wrap=strdup,--wrap=free," +
         ",".join("--wrap=_kdumpfile_priv_cache_" + n for n in ("get_entry", "put_entry", "insert", "discard")))
@@ -169,7 +171,18 @@ def trace_scenario(R, D, fault=None, plan=None):
         special = sorted(D.damage) + [q for q in D.stored if D.methods[q] == "lzo"] + sorted(D.excluded) + [D.maxpfn, D.maxpfn + 1]
         for _ in range(rng.choice([1, 2, 3])):
             p = rng.choice(special) if rng.random() < 0.5 else rng.randrange(top)
-            if rng.random() < 0.7:
+            if rng.random() < 0.3:
+                # fcache_get_fb: an object of 8/16/.. bytes at, across or just before a boundary of the file cache's entries
+                # (host page for the read cache, 4 MiB for mappings), anywhere else, and beyond the end of the file
+                unit = rng.choice([4096, 4096, 4096, 4 << 20]) if D.size > (4 << 20) else 4096
+                bnd = rng.randrange(1, max(2, min(D.size, 8 << 20) // unit + 1)) * unit
+                sz = rng.choice([8, 16, 16, 24, 512])
+                pos = rng.choice([bnd - sz + rng.randrange(1, sz), bnd - sz, bnd - 1, bnd, rng.randrange(D.size), D.size - sz,
+                                  D.size + rng.randrange(4096)])
+                if pos < D.size < pos + sz:
+                    pos = D.size - sz      # an object across the end of the file: the model does not clamp a mapping's length at EOF
+                plan["calls"].append(("fb", max(pos, 0), sz))
+            elif rng.random() < 0.7:
                 off = rng.choice([0, 0, 1, ps - 1, rng.randrange(ps)])
                 ln = rng.choice([1, 8, ps - off, ps - off + 1, ps, 2 * ps + 3, rng.randint(1, 3 * ps)])
                 plan["calls"].append(("read", p * ps + off, ln))
@@ -199,6 +212,8 @@ def trace_scenario(R, D, fault=None, plan=None):
             S.add("fail %s %d" % (fault[1], fault[2]))
         if c[0] == "read":
             S.add("read 0 1 %d %d" % (c[1], c[2]), traced=True, model=("read", 1, c[1], c[2]))
+        elif c[0] == "fb":
+            S.add("fb 0 %d %d" % (c[1], c[2]), traced=True, model=("fb", c[1], c[2]))
         else:
             S.add("getpage 2 1 %d %d" % (c[1], 4 + ci), traced=True, model=("getpage", 1, c[1]))
             if c[2]:
@@ -209,6 +224,83 @@ def trace_scenario(R, D, fault=None, plan=None):
     if need_ax:
         S.add("drop 2"); S.add("drop 3")
     S.add("free 0")
+    S.add("closefds 0")
+    return S
+
+
+def ax_scenario(R, D):
+    """the read cache of the dump's translation context (libaddrxlat get_cache_buf/cleanup_cache) and application callback
+    records stacked on the library's record: reads through the cache (hits, evictions, failing pages, failing allocations),
+    records added and removed in any order, the dump context freed while records and cached pages are still there"""
+    rng = R.rng
+    ps = D.ps
+    top = D.maxpfn + 1
+    S = Scn("trace", D)
+    S.plan = dict(zeroexcl=int(rng.random() < 0.3)); S.fault = None
+    pol = rng.choice([0, 0, 0, 1, 2, 2, 3])
+    S.add("new 0")
+    S.add("open 0 0 1 %s" % D.path)
+    S.add("setnum 0 file.mmap_policy %d" % pol)
+    cache = rng.choice([None, None, 2, 3, 5])
+    if cache:
+        S.add("setnum 0 cache.size %d" % cache)
+    if S.plan["zeroexcl"]:
+        S.add("setnum 0 file.zero_excluded 1")
+    S.add("setnum 0 addrxlat.default.virt_bits 48")
+    S.add("read 0 1 0 8")
+    S.add("ax 0 2 3")
+    S.add("axstate 2", model=("axinit",))
+    good = [q for q in D.stored if q not in D.damage and D.methods[q] in ("raw", "zlib", "zlib-stored")]
+    pool = rng.sample(good, min(len(good), rng.choice([2, 5, 7]))) + rng.sample(range(top + 1), 2)
+    cbs = []          # (slot, id), in order of creation
+    nid = 1
+    freed = False
+    def polq():
+        if not freed:
+            S.add("get 0 file.mmap_policy")
+    for _ in range(rng.choice([4, 8, 14, 20])):
+        r = rng.random()
+        if r < 0.55:
+            a = rng.choice(pool) * ps + rng.choice([0, 8, ps - 8, rng.randrange(ps // 8) * 8])
+            polq()
+            if rng.random() < 0.12:
+                S.add("fail %s 1" % rng.choice(["malloc", "pread", "mmap"]))
+            S.add("axread 2 1 %d" % a, traced=True, model=("axread", 1, a))
+        elif r < 0.72 and len(cbs) < 3:
+            polq()
+            if rng.random() < 0.1:
+                S.add("fail malloc 1")
+                S.add("addcb 2 %d" % (4 + nid), traced=True, model=("addcb", nid))
+            else:
+                S.add("addcb 2 %d" % (4 + nid), traced=True, model=("addcb", nid))
+                cbs.append((4 + nid, nid))
+            nid += 1
+        elif r < 0.85 and cbs:
+            slot, i = cbs.pop(rng.randrange(len(cbs)))          # not necessarily the top one
+            polq()
+            S.add("delcb %d" % slot, traced=True, model=("delcb", i))
+        elif r < 0.95:
+            polq()
+            a = rng.randrange(top) * ps + rng.choice([0, 1, ps - 1])
+            n = rng.choice([1, 8, ps + 1])
+            S.add("read 0 1 %d %d" % (a, n), traced=True, model=("read", 1, a, n))
+    # the end: the dump goes away first (records and cached pages still in place) or last
+    if rng.random() < 0.7:
+        polq()
+        S.add("free 0", traced=True, model=("freectx",)); freed = True
+        rng.shuffle(cbs)
+        for slot, i in cbs:
+            S.add("delcb %d" % slot, traced=True, model=("delcb", i))
+        S.add("drop 2"); S.add("drop 3")
+    else:
+        tail = [("delcb %d" % slot, ("delcb", i)) for slot, i in cbs] + [("drop 3", None)]
+        rng.shuffle(tail)
+        for l, m in tail:
+            polq()
+            S.add(l, traced=True, model=m)
+        polq()
+        S.add("free 0", traced=True, model=("freectx",)); freed = True
+        S.add("drop 2")
     S.add("closefds 0")
     return S
 
@@ -232,6 +324,8 @@ def api_scenario(R, dumps, elfs, n_ops):
         if rng.random() < 0.2:
             S.add("fail mmap 1")
         s = nset[0]; nset[0] += 1
+        if rng.random() < 0.25:
+            S.add("setnum %d file.mmap_policy %d" % (c, rng.choice([0, 0, 2, 3])))       # in force while the file is opened
         if rng.random() < 0.12:
             # a failed open first, then the real one on the same context
             S.add("open %d %d 1 %s" % (c, s, rng.choice(R.badfiles))); sets[s] = 1
@@ -315,6 +409,12 @@ def api_scenario(R, dumps, elfs, n_ops):
                     S.add("read %d 2 %d %d" % (c, rng.randrange(64) * ps + rng.randrange(ps), rng.choice([1, 8, ps + 3])), traced=True)
                 elif k < 0.7:
                     S.add("xop %d %d %d %d %d" % (o1, o2, rng.choice([0, 1, 2]), rng.randrange(64) * ps, rng.choice([1, 2, 3])), traced=True)
+                elif k < 0.76:
+                    S.add("axread %d 1 %d" % (o1, rng.randrange(top) * ps + 8 * rng.randrange(ps // 8)), traced=True)
+                elif k < 0.82:
+                    o = free_obj()
+                    if o is not None and sum(t == "cb" for t in objs.values()) < 4:
+                        S.add("addcb %d %d" % (o1, o)); objs[o] = "cb"
                 elif k < 0.85:
                     S.add("samemap %d %d" % (o2, rng.randrange(5)))
                 else:
@@ -324,6 +424,8 @@ def api_scenario(R, dumps, elfs, n_ops):
             if t == "bmp":
                 S.add(rng.choice(["bits %d %d %d" % (o, 3, 3 + rng.randrange(60)), "fset %d %d" % (o, rng.randrange(80)),
                                   "fclr %d %d" % (o, rng.randrange(80))]))
+            elif t == "cb" and rng.random() < 0.5:
+                S.add("delcb %d" % o); del objs[o]
             elif t == "blob":
                 S.add(rng.choice(["pin %d" % o, "unpin %d" % o, "bset %d %s" % (o, vmcoreinfo_text(rng, True, pagesize=False).hex()), "pin %d" % o]))
         elif r < 0.95 and len(ctx) > 1:
@@ -403,6 +505,46 @@ def directed_scenarios(R, dumps):
     return out
 
 
+def directed_xen_cb(R, dumps, xcs):
+    """fixed shapes for fcache_get_fb's bounce-buffer path and for callback records that outlive the dump"""
+    out = []
+    # a Xen core with a misaligned table, opened with every mmap policy and with a failing first mapping
+    for x in xcs:
+        for pol, nomap in ((0, False), (2, True), (3, True), (2, False)):
+            S = Scn("api", x)
+            S.add("new 0"); S.add("setnum 0 file.mmap_policy %d" % pol)
+            if nomap:
+                S.add("fail mmap 1")
+            S.add("open 0 0 1 %s" % x.path)
+            S.add("read 0 1 0 8"); S.add("get 0 memory.pagemap 1"); S.add("fset 1 0")
+            S.add("free 0"); S.add("drop 1"); S.add("closefds 0")
+            out.append(S)
+    # an application record (that overrides nothing) on top of the library's; pages cached through both; then the dump
+    # is freed first / the record is removed first / a second record is removed from under the first
+    D = dumps[0]; ps = D.ps
+    for shape in range(4):
+        S = Scn("api", D)
+        for l in ("new 0", "open 0 0 1 %s" % D.path, "setnum 0 addrxlat.default.virt_bits 48", "read 0 1 0 8", "ax 0 2 3",
+                  "memarr 3 1 0 12 8 8", "addcb 2 4"):
+            S.add(l)
+        if shape >= 2:
+            S.add("addcb 2 5")
+        S.add("read 0 2 %d 8" % ps); S.add("axread 2 1 %d" % (D.stored[0] * ps))
+        if shape == 0:
+            tail = ("free 0", "axread 2 1 0", "delcb 4", "drop 2", "drop 3")
+        elif shape == 1:
+            tail = ("delcb 4", "axread 2 1 0", "free 0", "drop 3", "drop 2")
+        elif shape == 2:
+            tail = ("delcb 4", "axread 2 1 0", "free 0", "axread 2 1 0", "drop 2", "drop 5", "drop 3")
+        else:
+            tail = ("free 0", "delcb 4", "drop 3", "drop 2", "drop 5")
+        for l in tail:
+            S.add(l)
+        S.add("closefds 0")
+        out.append(S)
+    return out
+
+
 def known_scenarios(R, D):
     out = []
     S = Scn("known", D); S.known_key = "reopen-open-context"
@@ -445,7 +587,7 @@ def canon_trace(t):
         elif k[0] == "M":
             orc.append("a1" if k[2] == "ok" else "a0")
     res = res.split()
-    if res and res[0] == "read":
+    if res and res[0] in ("read", "fb"):
         res = res[:3]
     return "T " + "".join(e + " " for e in evs) + "| " + " ".join(res), orc, evs
 
@@ -619,6 +761,23 @@ def run(R):
             n = rng.randint(1, 5); segs.append(dict(pfn=pfn, npages=n, voff=0xffff880000000000)); pfn += n + rng.randint(1, 3)
         dumpgen.write_elf(e.path, segs)
         elfs.append(e)
+    # Xen domain cores whose page table (.xen_p2m: 16-byte records, .xen_pfn: 8-byte records) starts at any alignment, so that
+    # records straddle the boundaries of the file cache's entries (the only users of fcache_get_fb)
+    xcs = []
+    for i in range(2 if quick else 8):
+        class X: pass
+        x = X(); x.path = R.path("c15-%d.xc" % i); x.ps = 4096
+        p2m = (i % 2 == 0)
+        n = rng.choice([300, 600, 1100])
+        x.maxpfn = n
+        # .xen_p2m at 8 (mod 16): every 256th record straddles a host-page boundary, yet every load is naturally aligned (a table at
+        # an odd offset runs into the recorded C03 finding misaligned-load-of-file-data; 8-byte .xen_pfn records cannot straddle
+        # without it, so those tables stay aligned here and the bounce-buffer path of that loop is covered by the `fb` calls only)
+        x.map_off = rng.choice([1, 2, 3]) * 4096 - (8 + 16 * rng.randrange(3) if p2m else 8 * rng.randrange(4))
+        pf = rng.sample(range(4 * n), n); pf.sort()
+        dumpgen.write_xc_core(x.path, [(q, 0x1000 + q) for q in pf], p2m=p2m, map_off=x.map_off)
+        xcs.append(x)
+    elfs += xcs
 
     # does the data of a page decode?  That is the decompressors' answer (external to the model): discovered once per dump by
     # reading every stored page in a fresh context; the generator's own expectation is kept where the two agree.
@@ -677,9 +836,19 @@ def run(R):
                     if not desync:
                         check_in.append("M check " + " ".join(evs))
                         check_meta.append((S, i, cur_sum, o["line"]))
-                    if o.get("model") and with_model and pol is not None and not canon.endswith("drop-none"):
+                    if o.get("model") and o["model"][0] == "axinit" and with_model:
+                        model_in.append("M axinit %d %s" % (R.sizes["cb"], " ".join(st[0].split()[1:])))
+                    elif o.get("model") and with_model and pol is not None and not canon.endswith("drop-none"):
                         m = o["model"]
-                        model_in.append("M call %s %s | %s" % (POLNAME[pol], " ".join(str(x) for x in m), " ".join(orc)))
+                        if m[0] == "freectx":
+                            # kdump_free(): compared is the part that gives the cached pages back (cache reference, then the page
+                            # descriptor, per page); the blocks of the context itself that are freed afterwards are not modelled
+                            k = 0
+                            while k + 1 < len(evs) and evs[k].startswith("R:") and evs[k + 1].startswith("F:"):
+                                k += 2
+                            canon = "T " + "".join(e + " " for e in evs[:k]) + "| free"
+                        model_in.append("M %s %s %s | %s" % ("axcall" if m[0] in ("axread", "addcb", "delcb", "freectx") else "call",
+                                                             POLNAME[pol], " ".join(str(x) for x in m), " ".join(orc)))
                         for tok in orc:
                             kk = tok if tok in ("b", "hF", "mF", "io0", "io1", "a0", "a1") else tok[0]
                             orckinds[kk] = orckinds.get(kk, 0) + 1
@@ -708,12 +877,14 @@ def run(R):
                 faulted.append(trace_scenario(R, S.dump, fault=(ci, kind, n), plan=S.plan))
     nfault = len(faulted)
     consume(run_scenarios(R, exe, faulted, leaks=False))
+    nax = 40 if quick else 1500
+    consume(run_scenarios(R, exe, [ax_scenario(R, rng.choice(dumps)) for _ in range(nax)], leaks=False))
 
     # ---- (1) API walks on every kind of file, leak checker on
     napi = 40 if quick else 1500
     apis = [api_scenario(R, dumps + flat, elfs, rng.choice([15, 30, 60])) for _ in range(napi)]
     consume(run_scenarios(R, exe, apis), with_model=False)
-    consume(run_scenarios(R, exe, directed_scenarios(R, dumps)), with_model=False)
+    consume(run_scenarios(R, exe, directed_scenarios(R, dumps) + directed_xen_cb(R, dumps, xcs)), with_model=False)
     consume(run_scenarios(R, exe, known_scenarios(R, dumps[0])), with_model=False)
 
     # ---- model: traces of the forced paths, ledger over every intercepted trace
@@ -776,7 +947,12 @@ def run(R):
                     "failing for points enumerated from the dry run; (b) random API walks (open incl. failed opens, clone, attributes incl. "
                     "type mismatches, VMCOREINFO with rejected lines, bitmaps/blobs kept beyond the context, addrxlat objects, MEMARR "
                     "translations through missing pages, re-installing the same map/method) on diskdump, flattened and ELF files, then "
-                    "freeing everything in random order under LeakSanitizer; non-trivial = distinct (call, event-kind set, status) classes "
+                    "freeing everything in random order under LeakSanitizer; (c) fcache_get_fb + fcache_put on objects at, across and next "
+                    "to the boundaries of read-cache and mmap-cache entries (forced paths, fault reruns); Xen domain cores whose .xen_p2m "
+                    "table straddles host pages, opened under every mmap policy and with a failing first mapping; (d) sessions on the "
+                    "dump's translation context: reads through libaddrxlat's read cache (hits, evictions, failing pages/allocations), "
+                    "application callback records added and removed in any order (not only the top one), the dump freed while records "
+                    "and cached pages are still in place -- read-cache slots and MRU ring compared with the model after every call; non-trivial = distinct (call, event-kind set, status) classes "
                     "of the compared traces",
                traces_validated_against_impl=len(impl_t), correspondence_first_diff=mism, ledger_checked_traces=len(check_in),
                fault_reruns=nfault, api_walks=napi, environment_answers=orckinds, decodability_corrected_by_discovery=dec_disagree, case_kinds=dict(sorted(kinds.items(), key=lambda kv: -kv[1])[:60]),
@@ -784,4 +960,10 @@ def run(R):
     return "proof", cov, ["single-threaded use; the n-th pread/mmap/malloc fails only where the schedule says",
                           "the modelled path is the single-file, non-flattened diskdump read path; flattened/ELF files and all other API "
                           "calls are covered by the observed invariants and the ledger over their intercepted traces, not by theorems",
-                          "distinct live heap and cache buffers have distinct addresses (copy mode of fcache_get_chunk)"]
+                          "distinct live heap and cache buffers have distinct addresses (copy mode of fcache_get_chunk)",
+                          "a mapping's length is not clamped at the end of the file in the model (fcache_get_mmap's `avail`): objects that "
+                          "cross EOF are not generated for fcache_get_fb",
+                          "xenMapScan (the table scan of make_xen_pfn_map_*) is a theorem about the model only: its loop is tied to the "
+                          "code through the fcache_get_fb/fcache_put correspondence and the observed invariants on Xen cores, not by a "
+                          "trace comparison of its own; .xen_pfn tables that straddle need misaligned loads (C03 finding) and are not generated",
+                          "kdump_free: only the give-back of the cached pages is compared with the model (ctxDelCb), not the context's own blocks"]
